@@ -193,6 +193,13 @@ def prepare_evo_aspirate_dispense_parameters(
             # User-specified integers from 1-8 need to be converted to Tecan logic
             tip = int_to_tip(tip)
         tecan_tips.append(tip)
+    if Tip.Any in tecan_tips or len(set(tecan_tips)) != len(tecan_tips):
+        raise ValueError(f"Invalid tips: {tips}. Every tip has to be a distinct tip from 1 - 8.")
+    # EVOware assigns the selected tips in ascending order to the selected wells in ascending order,
+    # therefore the wells (and their volumes) must be given in that order, without repetitions.
+    for well_a, well_b in zip(wells_list[:-1], wells_list[1:]):
+        if not str(well_a) < str(well_b):
+            raise ValueError(f"Invalid wells: {wells_list}. Wells have to be distinct and in ascending order.")
 
     if arm is None:
         raise ValueError("Missing required paramter: arm")
@@ -451,6 +458,8 @@ def prepare_evo_wash_parameters(
             # User-specified integers from 1-8 need to be converted to Tecan logic
             tip = int_to_tip(tip)
         tecan_tips.append(tip)
+    if Tip.Any in tecan_tips or len(set(tecan_tips)) != len(tecan_tips):
+        raise ValueError(f"Invalid tips: {tips}. Every tip has to be a distinct tip from 1 - 8.")
 
     if waste_location is None:
         raise ValueError("Missing required parameter: waste_location")
